@@ -45,6 +45,15 @@ type Seq struct {
 	// LotsCmd, if set ("c05.lots"), makes every successful begin block / keeper liquidation also emit the collateral
 	// auctions it started, read back from the auction store (lots.go)
 	LotsCmd string
+	// GateCmd, if set ("c05.gate"), makes every create / draw / deposit / withdraw also emit a feed-gate line: the
+	// harness's OWN reading of x/pricefeed for the type's two markets at the time of the operation (feed.go)
+	GateCmd string
+	// FeedPct: percentage of the generated blocks that start a price-feed outage episode (0 = never; feed.go)
+	FeedPct int
+	// beginAvail: availability of every market's current price as the harness read it from x/pricefeed right before
+	// the cdp begin blocker of the CURRENT block ran (nil = unknown: no begin block yet, the begin blocker failed, or
+	// the parameters were written since)
+	beginAvail []bool
 	// AfterCase, if set, sees every executed operation (used for Go-side checks)
 	AfterCase func(kind string, args []string, pre, post Obs, cls kapp.Class, err error)
 }
@@ -57,6 +66,7 @@ func (w *World) NewSeq(out *c.Out, cmd string, no int, r *c.Rng, p cdptypes.Para
 	s := &Seq{W: w, Ctx: ctx, R: r, Out: out, Cmd: cmd, GenUsdx: gen, Tol: make([]int64, len(Types)), No: no}
 	if cmd == "c05.op" { // C05: "exactly its collateral … and its debt enter auctions" is also checked auction by auction
 		s.LotsCmd = "c05.lots"
+		s.GateCmd = "c05.gate"
 	}
 	s.RefreshParams()
 	return s
@@ -82,6 +92,7 @@ func (s *Seq) SetParamsNow(p cdptypes.Params, tag string) {
 	k := s.W.Keeper()
 	kapp.SetParams(s.W.App, s.Ctx, "cdp", &p, func() { k.SetParams(s.Ctx, p) })
 	s.RefreshParams()
+	s.beginAvail = nil // the flags on record were written by a begin blocker that ran under other parameters
 	s.NGov++
 	// signature: the first field changed (+more), not every combination
 	sig := tag
@@ -200,6 +211,7 @@ func (s *Seq) find(o Obs, owner, ty int) *CDPObs {
 func (s *Seq) Create(owner, ty int, col *big.Int, cd int, p *big.Int, pd int, tag string) (kapp.Class, error) {
 	pre := s.Pre()
 	k := s.W.Keeper()
+	g := s.gateBefore(ty)
 	cls, err := kapp.Exec(s.Ctx, func(cx sdk.Context) error {
 		msg := cdptypes.NewMsgCreateCDP(s.W.Addr(owner), coin(cd, col), coin(pd, p), typeName(ty))
 		if e := msg.ValidateBasic(); e != nil {
@@ -209,12 +221,14 @@ func (s *Seq) Create(owner, ty int, col *big.Int, cd int, p *big.Int, pd int, ta
 	})
 	args := []string{fmt.Sprint(s.Now()), fmt.Sprint(owner), fmt.Sprint(ty), col.String(), fmt.Sprint(cd), p.String(), fmt.Sprint(pd)}
 	s.finish("create", args, fmt.Sprintf("ty=%d|%s", ty, tag), pre, cls, err)
+	s.emitGate("create", g, cls, err)
 	return cls, err
 }
 
 func (s *Seq) Deposit(owner, depositor, ty int, col *big.Int, cd int, tag string) (kapp.Class, error) {
 	pre := s.Pre()
 	k := s.W.Keeper()
+	g := s.gateBefore(ty)
 	cls, err := kapp.Exec(s.Ctx, func(cx sdk.Context) error {
 		msg := cdptypes.NewMsgDeposit(s.W.Addr(owner), s.W.Addr(depositor), coin(cd, col), typeName(ty))
 		if e := msg.ValidateBasic(); e != nil {
@@ -224,12 +238,14 @@ func (s *Seq) Deposit(owner, depositor, ty int, col *big.Int, cd int, tag string
 	})
 	args := []string{fmt.Sprint(s.Now()), fmt.Sprint(owner), fmt.Sprint(depositor), fmt.Sprint(ty), col.String(), fmt.Sprint(cd)}
 	s.finish("deposit", args, fmt.Sprintf("third=%v|%s", owner != depositor, tag), pre, cls, err)
+	s.emitGate("deposit", g, cls, err)
 	return cls, err
 }
 
 func (s *Seq) Withdraw(owner, depositor, ty int, col *big.Int, cd int, tag string) (kapp.Class, error) {
 	pre := s.Pre()
 	k := s.W.Keeper()
+	g := s.gateBefore(ty)
 	cls, err := kapp.Exec(s.Ctx, func(cx sdk.Context) error {
 		msg := cdptypes.NewMsgWithdraw(s.W.Addr(owner), s.W.Addr(depositor), coin(cd, col), typeName(ty))
 		if e := msg.ValidateBasic(); e != nil {
@@ -239,12 +255,14 @@ func (s *Seq) Withdraw(owner, depositor, ty int, col *big.Int, cd int, tag strin
 	})
 	args := []string{fmt.Sprint(s.Now()), fmt.Sprint(owner), fmt.Sprint(depositor), fmt.Sprint(ty), col.String(), fmt.Sprint(cd)}
 	s.finish("withdraw", args, fmt.Sprintf("third=%v|%s", owner != depositor, tag), pre, cls, err)
+	s.emitGate("withdraw", g, cls, err)
 	return cls, err
 }
 
 func (s *Seq) Draw(owner, ty int, p *big.Int, pd int, tag string) (kapp.Class, error) {
 	pre := s.Pre()
 	k := s.W.Keeper()
+	g := s.gateBefore(ty)
 	cls, err := kapp.Exec(s.Ctx, func(cx sdk.Context) error {
 		msg := cdptypes.NewMsgDrawDebt(s.W.Addr(owner), typeName(ty), coin(pd, p))
 		if e := msg.ValidateBasic(); e != nil {
@@ -254,6 +272,7 @@ func (s *Seq) Draw(owner, ty int, p *big.Int, pd int, tag string) (kapp.Class, e
 	})
 	args := []string{fmt.Sprint(s.Now()), fmt.Sprint(owner), fmt.Sprint(ty), p.String(), fmt.Sprint(pd)}
 	s.finish("draw", args, tag, pre, cls, err)
+	s.emitGate("draw", g, cls, err)
 	return cls, err
 }
 
@@ -372,7 +391,14 @@ func (s *Seq) NextBlock(gapSeconds int64, tag string) (kapp.Class, error) {
 	}
 	args := append([]string{fmt.Sprint(s.Now()), sk}, facs...)
 	post := s.finish("begin", args, fmt.Sprintf("skip=%v|gap0=%v|%s", skip, gapSeconds == 0, tag), pre, cls, err)
+	s.beginAvail = nil
 	if cls == kapp.OK {
+		// what x/pricefeed answered for every market right before this begin blocker (prices only change in the
+		// pricefeed end blocker, i.e. at the top of this function)
+		s.beginAvail = make([]bool, len(Markets))
+		for m := range Markets {
+			s.beginAvail[m] = pre.Price[m] != nil
+		}
 		gone := len(pre.Cdps) - len(post.Cdps)
 		if gone > 0 {
 			s.Out.NoteN("begin:seized", gone)
